@@ -499,8 +499,19 @@ func genFilterScript(rng *rand.Rand, seed uint64) *Script {
 	g.BaseFee, g.MinGasPrice = "1000000000", "0"
 	s := &Script{Prop: "C20", Seed: seed, Gen: g, Extra: map[string]string{"sched": "filters"}}
 	ops := []Op{{K: "block", Dt: 5}}
+	// bursty chains: many Ethereum txs per block, so that events of one topic arrive back to back while the topic's
+	// publisher is still handing the previous one to a slow subscriber, and subscribers come and go meanwhile
+	burst := rng.IntN(3) == 0
 	for b, nb := 0, 2+rng.IntN(5); b < nb; b++ {
-		for i, n := 0, rng.IntN(5); i < n; i++ {
+		n := rng.IntN(5)
+		if burst {
+			n = 4 + rng.IntN(6)
+		}
+		for i := 0; i < n; i++ {
+			if burst && rng.IntN(4) > 0 {
+				ops = append(ops, Op{K: "eth", W: rng.IntN(g.Wallets), To: "c:logs", Data: hexWord(1 + rng.IntN(3)), Gas: "i+200000", Price: "b+1"})
+				continue
+			}
 			switch rng.IntN(6) {
 			case 0:
 				ops = append(ops, Op{K: "shape", Mut: pick(rng, "zero_msgs", "zero_msgs_eth_ext", "unknown_type_url", "no_auth_info")})
@@ -521,6 +532,8 @@ func genFilterScript(rng *rand.Rand, seed uint64) *Script {
 			op := Op{K: "flt", W: a, Ref: rng.IntN(40)}
 			if publisher {
 				op.Mut = pick(rng, "publish", "publish", "publish", "blockfilter", "changes")
+			} else if burst {
+				op.Mut = pick(rng, "blockfilter", "pendingfilter", "pendingfilter", "logfilter", "logfilter", "changes", "uninstall", "uninstall", "uninstall", "sleep")
 			} else {
 				op.Mut = pick(rng, "blockfilter", "pendingfilter", "logfilter", "changes", "changes", "changes", "filterlogs", "getlogs", "uninstall", "uninstall", "sleep")
 			}
